@@ -39,7 +39,7 @@ Round 7 (size-dependent behaviour; sharded x sliced):
                                                          (`Model/DequeueCache.lean`) delivers every `get_batch()`
                                                          refill exactly once, for every refill size / cap;
                                                          a bounded cache does so iff no refill exceeds it;
-`C03_shards_sliced_keys`, `C03_shards_sliced_state`, `C03_shards_sliced`, `C03_shards_sliced_result`,
+`C03_shards_sliced_keys`, `C03_shards_sliced_state`, `C03_shards_sliced`, `C03_shards_sliced_result`, `C03_shards_sliced_make`,
 `C03_shards_sliced_groupby`, `C03_shards_sliced_whole_runs`, `C03_shards_strict_count`
                                                        — `merge_states` over shard states whose slice-key
                                                          sets differ (`Model/PipeAggShard.lean`) = the whole run.
@@ -521,6 +521,36 @@ theorem C03_shards_sliced_result {P : Pipeline X S Rv} (hWF : P.WF) {parts : Lis
   · simp [shardedResult, hv, hruns, mergeStatesStrict, hlen, hres']
   · intro a ha k i hi
     exact C03_shards_sliced hWF hne hruns hst hres hres' ha (hL a ha) k hi
+
+/-- **`make(shard=ShardConfig(i, k))` for `i = 0..k-1`** over a `SequenceDataSource` of the batches (the
+partition `SequenceDataSource.shard` cuts, Model/Shard.lean, C09) is such a partition: for every `k ≥ 1` the
+`k` shard runs + `merge_states` report the whole run's result.  (`k` larger than the number of batches gives
+empty shards; their states hold the unsliced entries only.) -/
+theorem C03_shards_sliced_make {P : Pipeline X S Rv} (hWF : P.WF) (bs : List Batch) (k : Nat) (hk : 1 ≤ k)
+    {sts : List (State S)} (hruns : mapE (run P) (shardParts (DS.root bs.length) k bs) = .ok sts)
+    {res : Result Rv} (hrun : aggResult P bs = .ok res)
+    {Eqv : S → S → Prop} (hL : ∀ a ∈ P.aggs, Lawful a.m Eqv) :
+    ∃ res', shardedResult P (shardParts (DS.root bs.length) k bs) k = .ok res' ∧
+      ∀ a ∈ P.aggs, ∀ (sk : SliceKey) (i : Nat) (hi : i < a.out.length),
+        AList.get? res' ⟨a.out[i], sk⟩ = AList.get? res ⟨a.out[i], sk⟩ := by
+  have hwf : (DS.root bs.length).WF := by
+    simp only [DS.WF, DS.root, DS.end, Option.getD_none]
+    omega
+  have hflat : (shardParts (DS.root bs.length) k bs).flatten = bs := by
+    have h := partition_elems (DS.root bs.length) hwf bs rfl k hk
+    rw [List.flatMap_def] at h
+    unfold shardParts
+    rw [h]
+    simp only [DS.elems, DS.root, DS.end, Option.getD_none]
+    rw [pySlice_nat bs 0 (bs.length : Int) (Int.le_refl 0) (by omega) (Int.le_refl _)]
+    simp
+  have hlen : (shardParts (DS.root bs.length) k bs).length = k := by simp [shardParts]
+  have hne : shardParts (DS.root bs.length) k bs ≠ [] := by
+    intro e; rw [e] at hlen; simp at hlen; omega
+  rw [← hflat] at hrun
+  obtain ⟨res', _, h2, h3⟩ := C03_shards_sliced_result hWF hne hruns hrun hL
+  rw [hlen] at h2
+  exact ⟨res', h2, h3⟩
 
 /-- **`strict_states_cnt`**: the merge raises `ValueError` exactly when a count was requested and a
 different number of states arrived — never a partial aggregate. -/
